@@ -70,6 +70,27 @@ def run(prop, tier):
             sc = lscs[f["line"] - 1]
             rep.violation("C13 C13_KeyedByEffectiveAddress [%s]" % listener_check.describe(sc, lobs[f["line"] - 1]), {"failing_clauses": sorted(f["clauses"]), "scenario": sc, "observed": lobs[f["line"] - 1], "seed": seed})
     notes.append("listener stage: %d arrival histories with a limiter judged by Trace_Listener" % len(lobs))
+    # "duration" and "limit" as the operator configures them (seconds, connections), through the application itself (passage::start)
+    A = "203.0.113.10:40001"
+    app = [{"family": "C13app", "proxy": True, "allowV1": True, "allowV2": True, "limit": lim, "durationS": dur, "timeoutS": 3,
+            "conns": [{"hdr": "v1", "src": A, "waitMs": 0}] + [{"hdr": "v1", "src": A, "waitMs": 300}] * (2 * lim + 2) + [{"hdr": "v1", "src": A, "waitMs": 2 * dur * 1000 + 600}]}
+           for lim, dur in ((2, 2), (1, 3))]
+    ainp, aoutp = os.path.join(wd, "app_in.ndjson"), os.path.join(wd, "app_obs.ndjson")
+    vlib.write_ndjson(ainp, app)
+    hxa = vlib.cargo_build("hx-app")
+    vlib.run_bin(hxa, ["serve", "--in", ainp, "--out", aoutp], timeout=300)
+    aobs = vlib.read_ndjson(aoutp)
+    if len(aobs) != len(app) or any("harnessError" in o for o in aobs):
+        raise vlib.ToolError("hx-app serve did not produce a record for every scenario: %s" % json.dumps(aobs)[:600])
+    at = vlib.run_tlc("Trace_Listener", "Trace_Listener.cfg", wd, workers=1, timeout=600, markers=("FAIL", "NOTCONSUMED"),
+                      env_extra={"TRACE": aoutp, "PROP": "C13"}, java_opts=["-Xss1g", "-Dtlc2.tool.queue.IStateQueue=StateDeque"])
+    if not at.ok or at.marked["NOTCONSUMED"] or at.distinct != len(aobs) + 1:
+        raise vlib.ToolError("Trace_Listener did not consume all %d application records:\n%s" % (len(aobs), at.output[-2000:]))
+    for f in at.marked["FAIL"]:
+        o = aobs[f["line"] - 1]
+        rep.violation("C13 %s [application: limit=%s duration=%ss]" % ("+".join(sorted(f["clauses"])), o["limit"], o["durationS"]),
+                      {"failing_clauses": sorted(f["clauses"]), "scenario": app[f["line"] - 1], "observed": o, "seed": seed})
+    notes.append("application stage: %d configured limiters driven over TCP, judged by Trace_Listener" % len(aobs))
     events = sum(len(o["h"]) for o in observed)
     drift = len(tr.marked["DRIFT"])
     walk_mismatch = sum(1 for o in observed if o["src"] == "walk" and any(e["ok"] != e["walkOk"] for e in o["h"]))
